@@ -149,6 +149,12 @@ class Harness:
             goal = z3.BoolVal(goal)
         return self.ctx.prove(clause, goal, note=note)
 
+    def ensure_from(self, clause, goal, facts, note=None):
+        """Obligation discharged from an explicit, small set of facts instead of the whole path condition."""
+        from .core import prove_from
+        self.clauses_stated.append(clause)
+        return prove_from(self.ctx, clause, goal, list(facts), note=note)
+
     def lemma(self, clause, goal, note=None):
         """Prove an intermediate fact, then make it available to later obligations."""
         r = self.ensure(clause, goal, note)
